@@ -32,7 +32,7 @@ FLOORS = {'aggregate_evaluations': 3000, 'two_dimensional': 200,
           'order_relations': 100, 'sumproduct_cases': 100,
           'same_cells_twice': 300, 'library_calls_monitored': 100,
           'absolute_rectangles': 100, 'big_rectangles': 6,
-          'big_integer_cases': 50}
+          'big_integer_cases': 50, 'zero_valued_rectangles': 6}
 ANCHOR_FUNCS = {
     'xlcalculator/xlfunctions/math.py': ['SUM', 'SUMPRODUCT'],
     'xlcalculator/xlfunctions/statistics.py': ['AVERAGE', 'MIN', 'MAX',
@@ -263,6 +263,14 @@ def run(ctx):
                 B.flush(judge)
     B.flush(judge)
     ctx.block('fill patterns {n,b,t}^cells x shapes', idx // ctx.nshards)
+
+    # ---- zeros are values (COUNTA counts them, MIN/MAX/AVERAGE see them) ----
+    if ctx.shard in (3, 4) or thorough:
+        for m_ in ([[0, 'tx'], [None, 0.0]], [[0, 0, 0]], [[0.0], [None], [5.5]],
+                   [[0, -2.5], [0.0, 3.0]], [[None, 0]], [[0]]):
+            add_rect_cases([list(r) for r in m_], 'zeros')
+            ctx.event('zero_valued_rectangles')
+        B.flush(judge)
 
     # ---- sampled bigger rectangles, content permutations --------------------
     for _ in range((4000 if thorough else 160) // ctx.nshards):
